@@ -910,6 +910,6 @@ mod tests {
 }
 
 #[cfg(kani)]
-mod verif_kani {
+pub(crate) mod verif_kani {
     include!(concat!(env!("REPE_VERIF_KANI"), "/client.rs"));
 }
